@@ -133,6 +133,10 @@ def cases_for(spec, variant=None, limit=400, seed=0, extra_vals=()):
             doms.append(KW)
         elif ty == "str":
             doms.append([v for v in VALS if v[0] == "s"])
+        elif ty == "fset":
+            doms.append([["fs", []], ["fs", [I(1), I(2)]], ["fs", [I(1), I(2), I(3)]], ["fs", [I(3), I(4), I(7)]], ["fs", [I(9)]], ["fs", [S("a"), S("b")]]])
+        elif ty == "set":
+            doms.append([["set", []], ["set", [I(1), I(2)]], ["set", [I(2), I(3), I(4)]]])
         else:
             doms.append(list(VALS) + list(extra_vals))
     total = 1
@@ -156,12 +160,17 @@ def cases_for(spec, variant=None, limit=400, seed=0, extra_vals=()):
     return out, total
 
 
-def run_bounded(spec, props=None, variant=None, limit=400, seed=0, repo=None):
-    """Returns dict(cases, evaluated, violations=[(case, outcome, failed clauses)], skipped)."""
+def run_bounded(spec, props=None, variant=None, limit=400, seed=0, repo=None, budget_s=None):
+    """Returns dict(cases, evaluated, violations=[(case, outcome, failed clauses)], skipped).
+    budget_s: stop evaluating further cases after this many seconds (the count evaluated is reported)."""
+    import time
     cases, total = cases_for(spec, variant, limit, seed)
     outs = run_native(cases, repo=repo)
     viol, evaluated, skipped, herr = [], 0, 0, 0
+    t0 = time.time()
     for case, o in zip(cases, outs):
+        if budget_s is not None and time.time() - t0 > budget_s:
+            break
         if "harness_error" in o:
             herr += 1
             continue
